@@ -45,8 +45,8 @@ theorem hasKeyTie_false_iff {α κ : Type} [DecidableEq α] [DecidableEq κ] (ke
     · intro h
       refine ⟨fun b hb hne hk => hne (h _ (Or.inl rfl) b (Or.inr hb) hk), fun x hx y hy hk => h x (Or.inr hx) y (Or.inr hy) hk⟩
 
-theorem tripleLt_false_iff (a b : Int × Int × Int) : tripleLt b a = false ↔ keyLe a b = true := by
-  obtain ⟨a1, a2, a3⟩ := a; obtain ⟨b1, b2, b3⟩ := b
+theorem tripleLt_false_iff (a b : Int × Int × Int × Int × Int) : tripleLt b a = false ↔ keyLe a b = true := by
+  obtain ⟨a1, a2, a3, a4, a5⟩ := a; obtain ⟨b1, b2, b3, b4, b5⟩ := b
   simp only [tripleLt, keyLe, Bool.or_eq_false_iff, Bool.and_eq_false_iff, decide_eq_false_iff_not, decide_eq_true_eq]
   omega
 
